@@ -4,6 +4,7 @@ package asm
 // values against an independent transcription of LLVM's numbering rule.
 
 import (
+	"os/exec"
 	"regexp"
 	"fmt"
 	"math/rand"
@@ -191,6 +192,11 @@ func verifC08(t *testing.T, constructedOnly bool) {
 					}
 				}
 			}
+			// LLVM itself accepts the numbered text (when llvm-as is installed)
+			if msg := verifLLVMAs(text); msg != "" {
+				fail("shape %s: llvm-as rejects the printed function: %s", shape, msg)
+				return
+			}
 			// numbering again changes nothing
 			if err := f.AssignIDs(); err != nil {
 				fail("shape %s: renumbering a numbered function fails: %v", shape, err)
@@ -243,10 +249,23 @@ func verifC08(t *testing.T, constructedOnly bool) {
 			for k := r.Intn(3); k > 0; k-- {
 				m.NewAlias(nm("a", k), gs[r.Intn(len(gs))])
 			}
+			// the resolver of an ifunc returns a pointer to the function a call resolves to
+			var resolvers []*ir.Func
 			for k := r.Intn(3); k > 0; k-- {
-				m.NewIFunc(nm("i", k), fs[r.Intn(len(fs))])
+				target := fs[r.Intn(len(fs))]
+				rs := m.NewFunc(nm("r", k), types.NewPointer(target.Sig))
+				rs.NewBlock("").NewRet(target)
+				resolvers = append(resolvers, rs)
+			}
+			for k, rs := range resolvers {
+				m.NewIFunc(nm("i", k), rs)
 			}
 			text := m.String()
+			// LLVM itself accepts the printed module (when llvm-as is installed)
+			if msg := verifLLVMAs(text); msg != "" {
+				fail("module shape #%d: llvm-as rejects the printed module: %s\n%s", h, msg, text)
+				return
+			}
 			next := 0
 			for _, mm := range defRe.FindAllStringSubmatch(text, -1) {
 				num := mm[1] + mm[2]
@@ -312,4 +331,27 @@ func verifC08(t *testing.T, constructedOnly bool) {
 	if fails > 0 {
 		t.Fatalf("%d failures", fails)
 	}
+}
+
+
+// verifLLVMAs runs LLVM's own assembler on the text (oracle for "valid assembly"); "" when it accepts the
+// module or when no llvm-as is installed.
+func verifLLVMAs(text string) string {
+	bin := ""
+	for _, c := range []string{"llvm-as-14", "llvm-as"} {
+		if p, err := exec.LookPath(c); err == nil {
+			bin = p
+			break
+		}
+	}
+	if bin == "" {
+		return ""
+	}
+	cmd := exec.Command(bin, "-disable-verify", "-o", os.DevNull, "-") // syntax, types and numbering (the shapes are not meant to pass the IR verifier)
+	cmd.Stdin = strings.NewReader(text)
+	out, err := cmd.CombinedOutput()
+	if err != nil {
+		return strings.TrimSpace(strings.Split(string(out), "\n")[0])
+	}
+	return ""
 }
